@@ -419,7 +419,8 @@ class Gen:
                 elif r < 0.42:
                     op = "q"
                 elif r < 0.52:
-                    op = "Q" if stack else "q"
+                    # on a page a Q with nothing saved restores nothing (a form's Q would reach into its caller's stack)
+                    op = "Q" if (stack or (not is_form and rng.random() < 0.3)) else "q"
                 elif r < 0.64:
                     op = "cm"
                 elif r < 0.76:
@@ -463,8 +464,10 @@ class Gen:
         if not self.wild or rng.random() < 0.7:
             if in_text:
                 out.append(["ET", []])
-            for _ in stack:
-                out.append(["Q", []])
+            if is_form or rng.random() < 0.6:
+                for _ in stack:
+                    out.append(["Q", []])
+            # else: the page ends with states still saved - they are dropped with the page
         return out
 
     def case(self) -> dict:
@@ -504,6 +507,9 @@ class Gen:
             for _ in range(rng.choice([1, 1, 2])):
                 r2 = self.gen_res(nforms)
                 pg = {"res": r2, "prog": self.body(r2, max(6, self.nops // 3), False)}
+                if rng.random() < 0.4:
+                    # begin with a Q: nothing is saved on a new page, whatever the page before left on its stack
+                    pg["prog"] = [["Q", []]] * rng.choice([1, 1, 2]) + pg["prog"]
                 if rng.random() < 0.4:
                     # begin with an operator whose operands are missing: it must not find any left over by the page before
                     op0 = rng.choice(["Tc", "Tw", "TL", "Tz", "g", "rg", "cm", "Ts"])
@@ -878,7 +884,7 @@ class SpecMachine:
         txt = None      # None outside a text object, else {"Tm":..., "Tlm":...}
         for op, args in prog:
             g, txt = self.step(op, args, g, txt, stack, res, depth)
-        if txt is not None or stack:
+        if txt is not None or (stack and depth > 0):      # what a page leaves saved is dropped with the page
             raise Out("unbalanced")
         return g
 
@@ -904,8 +910,10 @@ class SpecMachine:
             stack.append(dict(g))
         elif op == "Q":
             if not stack:
-                raise Out("Q without q")
-            g = stack.pop()
+                if depth > 0:
+                    raise Out("Q without q")              # would reach into the caller's saved states
+            else:
+                g = stack.pop()
         elif op == "cm":
             g["ctm"] = mmul(tuple(v), g["ctm"])
         elif op in ("g", "rg", "k", "G", "RG", "K"):
@@ -1622,6 +1630,20 @@ def directed_cases() -> List[dict]:
                         "prog": json.loads(json.dumps([["Tc", []], ["cs", [["/", "CS1"]]]] + show + [["cs", [["/", "Sp"]]]] + show))}]
     c["trail"] = [N(7)]
     c["name"] = "colourspace-resources-per-content"
+    out.append(c)
+    # every piece of interpreter state a page can leave dirty, and a next page that would see it
+    c = json.loads(json.dumps(base))
+    c["prog"] = json.loads(json.dumps(
+        [["Tf", [["/", "F1"], N(12)]], ["cm", [N(2), N(0), N(0), N(2), N(30), N(40)]], ["rg", [N(1), N(0), N(0)]],
+         ["Tc", [N(3)]], ["Tw", [N(2)]], ["Tz", [N(50)]], ["TL", [N(14)]], ["Ts", [N(2)]], ["q", []],
+         ["cm", [N(1), N(0), N(0), N(1), N(100), N(100)]], ["k", [N(0), N(1), N(0), N(0)]], ["q", []], ["BT", []],
+         ["Tm", [N(1), N(0), N(0), N(1), N(10), N(500)]], ["Tj", [S("A B")]], ["ET", []]]))
+    c["trail"] = [N(9), N(8)]
+    c["more_pages"] = [{"res": {"fonts": {"F1": 0}, "xobjs": {}, "cspaces": {}},
+                        "prog": json.loads(json.dumps([["Q", []], ["Tc", []], ["TL", []], ["sc", [N(F(1, 4))]], ["Tf", [["/", "F1"], N(10)]],
+                                                       ["BT", []], ["T*", []], ["Tj", [S("C D")]], ["ET", []], ["Q", []], ["BT", []],
+                                                       ["Tj", [S("E")]], ["ET", []]]))}]
+    c["name"] = "page-starts-from-a-fresh-state"
     out.append(c)
     return out
 
